@@ -712,6 +712,8 @@ package stree
 //@   ensures  [C01,C04] ascending: forall a int, b int :: {callarg(yield, a), callarg(yield, b)} old(ncalls(yield)) <= a && a < b && b < ncalls(yield) ==> rank(t.compare, callarg(yield, a)) < rank(t.compare, callarg(yield, b))
 //@   ensures  [C01,C04] first: ncalls(yield) > old(ncalls(yield)) ==> forall k int :: {k in t.elems} k in t.elems && k >= rank(t.compare, key) ==> k >= rank(t.compare, callarg(yield, old(ncalls(yield))))
 //@   ensures  [C01,C04] none: ncalls(yield) == old(ncalls(yield)) ==> forall k int :: {k in t.elems} k in t.elems ==> k < rank(t.compare, key)
+//@   ensures  [C01,C04] nogap: forall a int, b int, k int :: {callarg(yield, a), callarg(yield, b), k in t.elems} old(ncalls(yield)) <= a && b == a + 1 && b < ncalls(yield) && k in t.elems ==> !(rank(t.compare, callarg(yield, a)) < k && k < rank(t.compare, callarg(yield, b)))
+//@   ensures  [C01,C04] last: ncalls(yield) == old(ncalls(yield)) || callret(yield, ncalls(yield) - 1) ==> forall k int :: {k in t.elems} k in t.elems && k >= rank(t.compare, key) ==> ncalls(yield) > old(ncalls(yield)) && k <= rank(t.compare, callarg(yield, ncalls(yield) - 1))
 //@   ensures  [C01,C04] count: ncalls(yield) >= old(ncalls(yield))
 //@   ensures  [C01,C04] went: forall j int :: {callret(yield, j)} old(ncalls(yield)) <= j && j < ncalls(yield) - 1 ==> callret(yield, j)
 //@   modifies calls(yield)
@@ -724,6 +726,9 @@ package stree
 //@   ensures  [C01,C04] ascending: forall a int, b int :: {callarg(yield, a), callarg(yield, b)} old(ncalls(yield)) <= a && a < b && b < ncalls(yield) ==> rank(t.compare, callarg(yield, a)) < rank(t.compare, callarg(yield, b))
 //@   ensures  [C01,C04] went: forall j int :: {callret(yield, j)} old(ncalls(yield)) <= j && j < ncalls(yield) - 1 ==> callret(yield, j)
 //@   ensures  [C01,C04] all: ncalls(yield) - old(ncalls(yield)) < t.size ==> ncalls(yield) > old(ncalls(yield)) && !callret(yield, ncalls(yield) - 1)
+//@   ensures  [C01,C04] first: ncalls(yield) > old(ncalls(yield)) ==> forall k int :: {k in t.elems} k in t.elems ==> k >= rank(t.compare, callarg(yield, old(ncalls(yield))))
+//@   ensures  [C01,C04] nogap: forall a int, b int, k int :: {callarg(yield, a), callarg(yield, b), k in t.elems} old(ncalls(yield)) <= a && b == a + 1 && b < ncalls(yield) && k in t.elems ==> !(rank(t.compare, callarg(yield, a)) < k && k < rank(t.compare, callarg(yield, b)))
+//@   ensures  [C01,C04] last: ncalls(yield) == old(ncalls(yield)) || callret(yield, ncalls(yield) - 1) ==> forall k int :: {k in t.elems} k in t.elems ==> ncalls(yield) > old(ncalls(yield)) && k <= rank(t.compare, callarg(yield, ncalls(yield) - 1))
 //@   modifies calls(yield)
 //@   call inorder#1: cmp = t.compare
 //@
